@@ -49,7 +49,7 @@ def run_case(case):
             T = case["tf"]
         else:
             T = [t for t, lvl in tf_.enum_transforms(net_in, tier, na.HOT[case["base"]])
-                 if lvl == 0 or tier != "quick" or opt == case["opts"][0]]
+                 if tf_.level_applies(lvl, opt, case["opts"], tier)]
             if case.get("zip"):
                 T = [t for t in T if t[0] in ("split", "split_zip")]
         for t in T:
@@ -81,13 +81,11 @@ def _pair(net_unsolved, net_solved, opt, t, base):
     vcase["opts"] = [opt]
     vcase["tf"] = [t]
     toks = ["tf=" + kind, "opt=" + opt] + (["what=" + str(t[1])] if kind in ("add", "relabel", "rowperm") else [])
+    zip_mean_changes = False
     if clause == "split_zip_load":
         tab = "load" if kind == "split_zip" else t[1]
         bus = int(net_unsolved[tab].at[t[-1], "bus"])
-        if tab == "load" and _zip_mean(net_unsolved, bus) != _zip_mean(n2, bus):
-            # recorded defect C01-zip: the solver applies the UNWEIGHTED mean of the ZIP percentages of the loads of
-            # a bus to the bus demand; splitting one of several different loads changes that mean
-            toks.append("explained=zip_unweighted_mean_changes")
+        zip_mean_changes = tab == "load" and _zip_mean(net_unsolved, bus) != _zip_mean(n2, bus)
     if oc != "ok":
         return oc, [core.violation(clause, {"what": "original converges, re-representation does not", "outcome": oc,
                                             "tf": t, "opt": opt}, case=vcase, tokens=toks + ["outcome=" + oc],
@@ -96,6 +94,14 @@ def _pair(net_unsolved, net_solved, opt, t, base):
     if not diffs:
         return "ok", []
     d0 = diffs[0]
+    if zip_mean_changes:
+        # recorded defect C01-zip: the solver applies the UNWEIGHTED mean of the ZIP percentages of the loads of a bus
+        # to the whole bus demand; splitting one of several different loads changes that mean.  Attributed only if the
+        # same pair agrees once the ZIP model is switched off (i.e. nothing else differs).
+        o2 = dict(opts, voltage_depend_loads=False)
+        a, b = copy.deepcopy(net_unsolved), copy.deepcopy(n2)
+        if na.run_pf(a, o2) == "ok" and na.run_pf(b, o2) == "ok" and not tf_.compare(a, b, M, dc=dc):
+            toks.append("explained=zip_unweighted_mean_changes")
     return "ok", [core.violation(clause, {"tf": t, "opt": opt, "n_diffs": len(diffs), "first": diffs[:4]},
                                  case=vcase, tokens=toks + ["table=" + d0["table"], "col=" + d0["col"]],
                                  klass="%s/%s" % (kind if kind != "add" else "add_" + t[1], d0["table"]))]
